@@ -84,7 +84,7 @@ static int plant(const char *kind, const char *tag, int *top) {
     }
     if (!strcmp(kind, "deepshort") || !strcmp(kind, "abyss")) {   /* 1500 / 6000 levels of 1-byte names */
         int depth = kind[0] == 'a' ? 6000 : 1500;
-        snprintf(n, sizeof n, "ds-%s", tag);
+        snprintf(n, sizeof n, "%s-%s", kind[0] == 'a' ? "ab" : "ds", tag);
         if (mkdir(n, 0755) || chdir(n)) return errno;
         *top = 1;
         for (int i = 0; i < depth; i++)
